@@ -130,7 +130,7 @@ def run(ctx):
             bad.append((k, "emitted octets break the rules of the declared encoding (line length / ASCII / bare CR LF / trailing blank)"))
     # the same through the builders: message body and single part, with and without a Content-Transfer-Encoding set on the builder first,
     # for strings, vectors and pre-encoded Body values: the field that is emitted must be the encoding the octets are in
-    pvals = [b"", b"Hello, world!\r\n", b"plain ascii line\nwith lone lf", "Café au lait\r\n".encode(), "Café\nau lait\nlone lf and 8-bit".encode(), b"\xff\xfe binary \0", b"=equals= and trailing blank \r\n", b"x" * 1200,
+    pvals = [b"", "\ufeffBOM first\r\n".encode(), "\ufeff".encode(), b"Hello, world!\r\n", b"plain ascii line\nwith lone lf", "Café au lait\r\n".encode(), "Café\nau lait\nlone lf and 8-bit".encode(), b"\xff\xfe binary \0", b"=equals= and trailing blank \r\n", b"x" * 1200,
              b"Subject: forwarded\r\n\r\nbody with 8-bit \xe9 and a lone\nLF\r\n"]
     pl, pmeta = [], []
     for tgt in ("msg", "part", "part:message/rfc822", "part:message/global", "part:application/octet-stream", "part:text/html; charset=utf-8"):
